@@ -30,6 +30,9 @@ CONSTANTS Subs,      \* sub-channel names, e.g. {"S1","S2"}
           MaxVer,    \* published / registered versions 0..MaxVer
           Start,     \* the version of the transaction with which watching of a channel starts (the watcher has
                      \*   registered nothing then, whatever that version is)
+          Hold,      \* TRUE: a Register call of the watcher may stay in progress (RegBegin .. RegEnd) while transactions are
+                     \*   published and an event for ANOTHER channel of the family arrives, whose handler then waits for the
+                     \*   family lock and must look at the newest transactions only once it has the lock
           Backlog    \* TRUE: only sub-channel starts and progressed / concluded events (the driver lets the client read
                      \*   its events only at the end: "always relayed" must hold however many are waiting)
 
@@ -45,15 +48,19 @@ VARIABLES watched,   \* Chans -> BOOLEAN
           regVer,    \* Chans -> version the watcher registered for the channel (0 initially)
           pubVer,    \* Chans -> highest relayed registered version or -1
           nev,       \* number of progressed / concluded events so far (Backlog mode: keeps the states of a behaviour apart)
+          held,      \* the Register call in progress: [c, v, call] (event that caused it, its arguments) or NoHeld
+          waiting,   \* events whose handlers wait for the family lock: sequence of [c, v] (at most one)
           out
-vars == <<watched, latest, locked, archived, regVer, pubVer, nev, out>>
-core == <<watched, latest, locked, archived, regVer, pubVer>>
+vars == <<watched, latest, locked, archived, regVer, pubVer, nev, held, waiting, out>>
+core == <<watched, latest, locked, archived, regVer, pubVer, held, waiting>>
+NoHeld == [c |-> "none", v |-> -1, call |-> [p |-> -1, subs |-> <<>>]]
+Free == held = NoHeld
 
 NoOut == [reg |-> <<>>, relay |-> {}, res |-> "ok"]
 
 Init == /\ watched = [c \in Chans |-> c = P]
         /\ latest = [c \in Chans |-> Start]
-        /\ nev = 0
+        /\ nev = 0 /\ held = NoHeld /\ waiting = <<>>
         /\ locked = <<>>
         /\ archived = [s \in Subs |-> -1]
         /\ regVer = [c \in Chans |-> 0]
@@ -67,14 +74,14 @@ InLocked(s) == \E i \in 1..Len(locked) : locked[i] = s
 (* StartWatchingSubChannel: a fresh channel object (versions reset); an    *)
 (* archive entry of an earlier incarnation is kept.                        *)
 StartSub(s) ==
-  /\ Tick
+  /\ Tick /\ Free
   /\ IF watched[P] /\ ~watched[s]
      THEN /\ watched' = [watched EXCEPT ![s] = TRUE]
           /\ latest' = [latest EXCEPT ![s] = Start]
           /\ regVer' = [regVer EXCEPT ![s] = 0]
           /\ pubVer' = [pubVer EXCEPT ![s] = -1]
           /\ out' = NoOut
-          /\ UNCHANGED <<locked, archived, nev>>
+          /\ UNCHANGED <<locked, archived, nev, held, waiting>>
      ELSE /\ out' = [NoOut EXCEPT !.res = "refused"]
           /\ UNCHANGED <<core, nev>>
 
@@ -84,14 +91,14 @@ PublishSub(s) ==
   /\ Tick /\ ~Backlog /\ watched[s] /\ latest[s] < MaxVer
   /\ latest' = [latest EXCEPT ![s] = @ + 1]
   /\ out' = NoOut
-  /\ UNCHANGED <<watched, locked, archived, regVer, pubVer, nev>>
+  /\ UNCHANGED <<watched, locked, archived, regVer, pubVer, nev, held, waiting>>
 PublishParent(l) ==
   /\ Tick /\ ~Backlog /\ watched[P] /\ latest[P] < MaxVer
   /\ \A i \in 1..Len(l) : watched[l[i]] \/ archived[l[i]] >= 0
   /\ latest' = [latest EXCEPT ![P] = @ + 1]
   /\ locked' = l
   /\ out' = NoOut
-  /\ UNCHANGED <<watched, archived, regVer, pubVer, nev>>
+  /\ UNCHANGED <<watched, archived, regVer, pubVer, nev, held, waiting>>
 
 SubVer(s) == IF watched[s] THEN latest[s] ELSE archived[s]
 RegCall == [p |-> latest[P], subs |-> [i \in 1..Len(locked) |-> <<locked[i], SubVer(locked[i])>>]]
@@ -99,7 +106,7 @@ RegCall == [p |-> latest[P], subs |-> [i \in 1..Len(locked) |-> <<locked[i], Sub
 (* registered event for watched channel c with version v; `ok`: whether a  *)
 (* resulting Register call succeeds                                        *)
 ChainRegistered(c, v, ok) ==
-  /\ Tick /\ ~Backlog /\ watched[c]
+  /\ Tick /\ ~Backlog /\ Free /\ watched[c]
   /\ LET refute == v < latest[c] /\ v >= regVer[c]
          relay  == (~refute \/ ok) /\ (pubVer[c] < v)
      IN /\ regVer' = IF refute /\ ok
@@ -110,16 +117,68 @@ ChainRegistered(c, v, ok) ==
         /\ out' = [reg |-> IF refute THEN <<RegCall>> ELSE <<>>,
                    relay |-> IF relay THEN {<<c, "registered", v>>} ELSE {},
                    res |-> "ok"]
-  /\ UNCHANGED <<watched, latest, locked, archived, nev>>
+  /\ UNCHANGED <<watched, latest, locked, archived, nev, held, waiting>>
 
 ChainOther(c, kind, v) ==
-  /\ Tick /\ watched[c]
+  /\ Tick /\ Free /\ watched[c]
   /\ out' = [NoOut EXCEPT !.relay = {<<c, kind, v>>}]
   /\ nev' = IF Backlog THEN nev + 1 ELSE nev
   /\ UNCHANGED core
 
+(***************************************************************************)
+(* A Register call that stays in progress (Hold).  The handler of (c, v)   *)
+(* has the family lock, has decided to refute and has called Register with *)
+(* the newest transactions of that moment.  Meanwhile transactions are     *)
+(* published (PublishSub / PublishParent stay enabled) and one event for   *)
+(* another channel may arrive (EventWaits).  When the call returns         *)
+(* (RegEnd), the registered versions are those of the CALL, the event is   *)
+(* relayed, and the waiting handler runs - judging its event against the   *)
+(* transactions that are newest NOW.                                       *)
+(***************************************************************************)
+RegBegin(c, v) ==
+  /\ Tick /\ Hold /\ ~Backlog /\ Free /\ watched[c]
+  /\ v < latest[c] /\ v >= regVer[c]
+  /\ held' = [c |-> c, v |-> v, call |-> RegCall]
+  /\ out' = [reg |-> <<RegCall>>, relay |-> {}, res |-> "ok"]
+  /\ UNCHANGED <<watched, latest, locked, archived, regVer, pubVer, nev, waiting>>
+EventWaits(c, v) ==
+  /\ Tick /\ ~Free /\ watched[c] /\ c # held.c /\ waiting = <<>>
+  /\ waiting' = << [c |-> c, v |-> v] >>
+  /\ out' = NoOut
+  /\ UNCHANGED <<watched, latest, locked, archived, regVer, pubVer, nev, held>>
+CallVer(call, d) == IF d = P THEN call.p
+                    ELSE LET I == { i \in 1..Len(call.subs) : call.subs[i][1] = d } IN
+                         IF I = {} THEN -1 ELSE call.subs[CHOOSE i \in I : TRUE][2]
+RegEnd(ok) ==
+  /\ Tick /\ ~Free
+  /\ LET hc == held.c
+         hv == held.v
+         rv1 == IF ok THEN [d \in Chans |-> IF d = P THEN held.call.p
+                                            ELSE IF watched[d] /\ CallVer(held.call, d) >= 0 THEN CallVer(held.call, d) ELSE regVer[d]]
+                ELSE regVer
+         rel1 == ok /\ pubVer[hc] < hv
+         pv1 == IF rel1 THEN [pubVer EXCEPT ![hc] = hv] ELSE pubVer
+         r1 == IF rel1 THEN {<<hc, "registered", hv>>} ELSE {}
+     IN IF waiting = <<>>
+        THEN /\ regVer' = rv1 /\ pubVer' = pv1
+             /\ out' = [reg |-> <<>>, relay |-> r1, res |-> "ok"]
+        ELSE LET c2 == waiting[1].c
+                 v2 == waiting[1].v
+                 refute2 == v2 < latest[c2] /\ v2 >= rv1[c2]
+                 rel2 == pv1[c2] < v2
+             IN /\ regVer' = IF refute2
+                             THEN [d \in Chans |-> IF d = P THEN latest[P]
+                                                   ELSE IF watched[d] /\ InLocked(d) THEN latest[d] ELSE rv1[d]]
+                             ELSE rv1
+                /\ pubVer' = IF rel2 THEN [pv1 EXCEPT ![c2] = v2] ELSE pv1
+                /\ out' = [reg |-> IF refute2 THEN <<RegCall>> ELSE <<>>,
+                           relay |-> r1 \cup (IF rel2 THEN {<<c2, "registered", v2>>} ELSE {}),
+                           res |-> "ok"]
+  /\ held' = NoHeld /\ waiting' = <<>>
+  /\ UNCHANGED <<watched, latest, locked, archived, nev>>
+
 StopWatching(c) ==
-  /\ Tick /\ ~Backlog /\ nev' = nev
+  /\ Tick /\ ~Backlog /\ Free /\ nev' = nev
   /\ IF ~watched[c]
      THEN out' = [NoOut EXCEPT !.res = "unknown"] /\ UNCHANGED core
      ELSE IF c = P /\ SubsWatched # {}
@@ -127,7 +186,7 @@ StopWatching(c) ==
      ELSE /\ watched' = [watched EXCEPT ![c] = FALSE]
           /\ archived' = IF c \in Subs /\ InLocked(c) THEN [archived EXCEPT ![c] = latest[c]] ELSE archived
           /\ out' = NoOut
-          /\ UNCHANGED <<latest, locked, regVer, pubVer>>
+          /\ UNCHANGED <<latest, locked, regVer, pubVer, held, waiting>>
 
 Next ==
   \/ \E s \in Subs : StartSub(s)
@@ -136,6 +195,8 @@ Next ==
   \/ \E c \in Chans, v \in 0..MaxVer, ok \in BOOLEAN : ChainRegistered(c, v, ok)
   \/ \E c \in Chans, kind \in {"progressed", "concluded"}, v \in {1} : ChainOther(c, kind, v)
   \/ \E c \in Chans : StopWatching(c)
+  \/ \E c \in Chans, v \in 0..MaxVer : RegBegin(c, v) \/ EventWaits(c, v)
+  \/ \E ok \in BOOLEAN : RegEnd(ok)
 
 Spec == Init /\ [][Next]_vars
 
